@@ -166,12 +166,13 @@ PROPS = {
     'C19': {
         'level': 'proof',
         'units': [
+            {'engine': 'verus', 'name': 'wiring', 'tier': 'quick', 'role': 'the replica-to-replica wiring loop of Scheduler::build_execution_graph: all-to-all on ordinary edges; on forward edges exactly one consumer per producer replica, the same-index one when it exists'},
             {'engine': 'verus', 'name': 'replication', 'tier': 'quick', 'role': 'Replication::{clamp,intersect}, DemuxCoord::{new,includes_channel}, From impls'},
             {'engine': 'verus', 'name': 'placement', 'tier': 'quick', 'role': 'Scheduler::remote_block_info: replicas per host (all cores / min(n, cores) filled host by host / one per host / one) and contiguous global ids in host order; the function never reads the local host id'},
         ],
-        'explanation': 'Verus proofs of the placement of a block on the hosts (Scheduler::remote_block_info, any number of hosts and cores: replicas per host per replication kind, global ids contiguous in host order, hence distinct and in [0,#replicas), computed without reading the local host id), of the placement arithmetic (Replication::clamp/intersect) and of the demultiplexer coordinate of a link. '
-                       'NOT under contract: Scheduler::local_block_info, build_execution_graph (forward wiring, finding F4) and NetworkTopology::build (port assignment): iterator adapters over hash maps.',
-        'assumptions': ['forward wiring (finding F4: a producer replica without same-index consumer gets no consumer), port assignment and local_block_info are NOT under contract', 'std HashMap modelled by its map view'],
+        'explanation': 'Verus proofs of the placement of a block on the hosts (Scheduler::remote_block_info, any number of hosts and cores: replicas per host per replication kind, global ids contiguous in host order, hence distinct and in [0,#replicas), computed without reading the local host id), of the placement arithmetic (Replication::clamp/intersect) of the demultiplexer coordinate of a link, and of the replica-to-replica wiring loop of build_execution_graph (ordinary edge: all-to-all; forward edge: exactly one consumer per producer replica, the same-index one when it exists - KNOWN FINDING F4 when no same-index consumer exists). '
+                       'NOT under contract: Scheduler::local_block_info, the enumeration loops around the wiring loop, and NetworkTopology::build (port assignment): iterator adapters over hash maps.',
+        'assumptions': ['port assignment (NetworkTopology::build) and local_block_info are NOT under contract', 'std HashMap modelled by its map view', 'NetworkTopology::connect modelled as appending to a ghost log of links'],
     },
     'C10': {
         'level': 'proof',
